@@ -107,7 +107,7 @@ def reval(u):
 
 
 def body(case, ctx: Ctx):
-    u = ctx.guarded("build", case, frozen.build, case)
+    u = ctx.guarded("build", case, frozen.build, case, (), True)
     if u is None:
         ctx.case(case, False, ["build.failed"])
         return
